@@ -14,7 +14,7 @@ pub fn def() -> CheckDef {
         bounds_quick: "lax diagrams with <=3 nodes, one hyperedge of arity <=2->1, <=2 pending pairs (self pairs, repeats, chains), interfaces <=1, and <=4 nodes with <=3 pairs without hyperedges; every wiring enumerated, all labels symbolic; second quotient call (idempotence) on every result",
         bounds_thorough: "<=4 nodes, <=3 pairs, one hyperedge 2->1, interfaces <=2",
         jobs,
-        budget_s: (120, 2400),
+        budget_s: (120, 1500),
     }
 }
 
@@ -131,7 +131,7 @@ pub fn shapes_for(tier: Tier) -> Vec<LaxShape> {
 pub fn jobs(tier: Tier, _seed: u64) -> Vec<Job> {
     let per_job = Duration::from_secs(match tier {
         Tier::Quick => 90,
-        Tier::Thorough => 1200,
+        Tier::Thorough => 600,
     });
     let cfg = base_cfg(tier);
     let mut out = vec![];
